@@ -47,7 +47,7 @@ def nodal_imbalance(o, disp, tol=1e-6):
     return bad[:10]
 
 
-def add_split(specs, every=3):
+def add_split(specs, every=2):
     """ask for split optimisation on every n-th spec without coarse / periodic assets
     (their combination with short intervals is explored under C14)"""
     for i, sp in enumerate(specs):
@@ -56,3 +56,41 @@ def add_split(specs, every=3):
                 continue
             sp['opts']['split'] = {'h': '3h', '30min': '2h'}[sp['grid']['freq']]
     return specs
+
+
+def orderbook_tail_specs(seed, n, tag, split=True):
+    """portfolios whose LAST asset is an order book whose last order has no step in the first split
+    interval (or none in the horizon at all): a trailing variable without mapping row"""
+    import random, gen
+    out = []
+    for i in range(n):
+        rng = random.Random('%s/%s/%d' % (seed, tag, i))
+        cfg = {'freqs': ['h'], 'tzs': [None], 'T': (6, 9), 'units': ['h', 'd'], 'p_unaligned_end': 0.0, 'nodes': (1, 2),
+               'n_assets': (1, 2), 'p_market': 1.0, 'p_window': 0.2, 'kinds': {'SimpleContract': 1, 'Storage': 1, 'Transport': 1}}
+        sp = gen.gen_portfolio(rng, cfg)
+        g = sp['grid']
+        pts = gen.grid_points(g)
+        T = len(pts) - 1
+        node = sp['assets'][0]['nodes'][0]
+        st = [pts[0], pts[1]]
+        en = [pts[2], pts[3]]
+        if rng.random() < 0.5:            # last order delivers only in a later interval
+            st.append(pts[T - 2]); en.append(pts[T])
+        else:                             # last order lies outside the horizon
+            st.append(pts[T] + 2 * (pts[1] - pts[0])); en.append(pts[T] + 4 * (pts[1] - pts[0]))
+        ob = {'kind': 'OrderBook', 'name': 'ob', 'nodes': [node],
+              'orders': {'start': [gen.fmt(t) for t in st], 'end': [gen.fmt(t) for t in en],
+                         'capa': [rng.choice([-1, 1]) * gen.k8(rng, 1, 4) for _ in st], 'price': [gen.k8(rng, 0, 10) for _ in st]}}
+        pos = rng.choice(['last', 'last', 'first', 'middle'])
+        if pos == 'last':
+            sp['assets'].append(ob)
+        elif pos == 'first':
+            sp['assets'].insert(0, ob)
+        else:
+            sp['assets'].insert(len(sp['assets']) // 2, ob)
+        if split:
+            sp['opts']['split'] = '3h'
+        sp['id'] = '%s%d' % (tag, i)
+        sp['seed'] = '%s/%s/%d' % (seed, tag, i)
+        out.append(sp)
+    return out
